@@ -20,3 +20,14 @@ pub fn verif_default_ne<C: default::Constraint>(value: &C::Owned) -> bool { C::D
 /// R4: `s.chars().count()` (number of Unicode scalar values; std iterator code)
 #[verifier::external_body]
 pub fn verif_str_char_count(s: &str) -> (n: usize) { s.chars().count() }
+
+/// stand-in for the macro-generated `impl Number for u64` (impl_number!): needed only because `u64` is the default type
+/// argument of `numbers::Integer`; the methods of unit uper are verified for an arbitrary `T: Number`
+impl numbers::Number for u64 {
+    open spec fn n_i64(self) -> i64 { self as i64 }
+    open spec fn n_from(v: i64) -> u64 { v as u64 }
+    #[verifier::external_body]
+    fn to_i64(self) -> (r: i64) { self as i64 }
+    #[verifier::external_body]
+    fn from_i64(value: i64) -> (r: Self) { value as u64 }
+}
